@@ -365,6 +365,9 @@ func (r *Run) Finish() {
 			path := writeReplay(&rp)
 			lines = append(lines, fmt.Sprintf("VIOLATION property=%s replay=%s", r.Prop, path))
 			msg := v.Msg
+			if ls := strings.Split(msg, "\n"); len(ls) > 14 {
+				msg = strings.Join(ls[:14], "\n") + "\n…"
+			}
 			if len(msg) > 1500 {
 				msg = msg[:1500] + "…"
 			}
